@@ -63,7 +63,7 @@ def groups(tier, seed):
             PermMults=set())
         add('couplings-cubic', Classes={'Cubic'}, MaxN=4, MaxShift=0, Queries=ALLQ, MultiMod=101, PermMults=set())
         add('multispecies', Classes={'Multi'}, MaxL=3, MaxN=8, Queries=ALLQ - {'multi'}, DxCap=1, PermMults=set())
-        add('irregular', Classes={'Irregular'}, MaxL=3, MaxN=6, Queries=ALLQ, DxCap=2, MultiMod=61, IrrMod=41, PermMults=set())
+        add('irregular', Classes={'Irregular'}, MaxL=3, MaxN=6, Queries=ALLQ, DxCap=2, MultiMod=61, IrrMod=61, PermMults=set())
         add('helical', Classes={'Helical'}, MaxN=12, Queries=ALLQ, MultiMod=61)
     else:
         add('orders-1d', Classes=REG1D, MaxL=6, NLegs={3, 4}, MaxN=24, BcMode='periodic', OrderMode='all', PermMults=pm2,
